@@ -126,16 +126,32 @@ def r_lu_siblings(rep, f):
         rep.violation(key, key + ":errors", "lu_decomp checks %s but lu_decomp_complex checks %s" % ([x[0] for x in a], [x[0] for x in b]), f.body(LUC).get("sp"))
 
 
+def scope_bodies(f, fn, depth=2):
+    """the function's body and the bodies of the crate-local helpers it calls (a search extracted into a private helper
+    is still part of the factorisation)"""
+    out, seen, todo = [], set(), [(fn, 0)]
+    while todo:
+        d, lvl = todo.pop()
+        if d in seen or d not in f.bodies:
+            continue
+        seen.add(d)
+        out.append(f.bodies[d])
+        if lvl < depth:
+            for c in tast.find(f.bodies[d]["body"], lambda z: z.get("k") in ("Call", "MethodCall") and (z.get("def") or "").startswith("matrix::")
+                               and not (z.get("def") or "").startswith("matrix::base::") and not (z.get("def") or "").startswith("matrix::index::")):
+                todo.append((c["def"], lvl + 1))
+    return out
+
+
 def r_pivot_argmax(rep, f):
     for fn in (LU, LUC):
         if fn not in f.bodies:
             continue
-        b = f.body(fn)
         short = fn.split("::")[-1]
         key = "R-PIVOT-ARGMAX:%s" % short
         # the search loop: a For whose body is an If(val > acc) { acc = val; m = i }
         found = []
-        for lp in tast.find(b["body"], lambda z: z.get("k") == "For"):
+        for lp in [l_ for b_ in scope_bodies(f, fn) for l_ in tast.find(b_["body"], lambda z: z.get("k") == "For")]:
             inner_fors = tast.find(lp["body"], lambda z: z.get("k") == "For")
             ifs = [x for x in tast.find(lp["body"], lambda z: z.get("k") == "If" and z["cond"].get("k") == "Binary" and z["cond"]["op"] in ("Gt", "Ge", "Lt", "Le")
                                         and z["cond"]["l"].get("k") == "Path" and z["cond"]["r"].get("k") == "Path")
@@ -194,13 +210,55 @@ def r_mult_sign(rep, f):
                     store_sign = (1 if c > 0 else -1, ev["node"])
     # use signs in lin_solve
     uses = []
-    for n in tast.find(f.body(SOL)["body"], lambda z: z.get("k") == "AssignOp" and z["l"].get("k") == "Index"):
+    sol_body = f.body(SOL)["body"]
+
+    def coef_sign(e, depth=0):
+        """sign with which a product expression enters (negations anywhere in the product, also through single-assignment
+        `let` temporaries); None for anything that is not a pure product"""
+        if e is None or depth > 12:
+            return None
+        k = e.get("k")
+        if k == "Unary" and e["op"] == "Neg":
+            s_ = coef_sign(e["e"], depth + 1)
+            return None if s_ is None else -s_
+        if k in ("Unary", "Cast", "AddrOf"):
+            return coef_sign(e["e"], depth + 1)
+        if k == "Binary" and e["op"] in ("Mul", "Div"):
+            l, r_ = coef_sign(e["l"], depth + 1), coef_sign(e["r"], depth + 1)
+            return None if l is None or r_ is None else l * r_
+        if k == "Binary":
+            return None
+        if k == "Path" and e.get("res") == "local":
+            lets = tast.find(sol_body, lambda z: z.get("k") == "Let" and z["pat"].get("id") == e.get("id") and z.get("init") is not None)
+            asg = tast.find(sol_body, lambda z: z.get("k") in ("Assign", "AssignOp") and z["l"].get("k") == "Path" and z["l"].get("id") == e.get("id"))
+            if len(lets) == 1 and not asg:
+                return coef_sign(lets[0]["init"], depth + 1)
+            return 1
+        if k == "Lit":
+            try:
+                return -1 if float(e.get("v")) < 0 else 1
+            except Exception:
+                return 1
+        return 1
+
+    def mentions_matrix(e, depth=0):
+        if tast.contains(e, lambda z: z.get("k") == "Index" and "Matrix" in (z.get("base_ty") or z["e"].get("ty") or "")):
+            return True
+        for p_ in tast.find(e, lambda z: z.get("k") == "Path" and z.get("res") == "local"):
+            lets = tast.find(sol_body, lambda z: z.get("k") == "Let" and z["pat"].get("id") == p_.get("id") and z.get("init") is not None)
+            if depth < 4 and len(lets) == 1 and mentions_matrix(lets[0]["init"], depth + 1):
+                return True
+        return False
+    for n in tast.find(sol_body, lambda z: z.get("k") == "AssignOp" and z["l"].get("k") == "Index"):
         r = n["r"]
         if n["op"].startswith("Add") or n["op"].startswith("Sub"):
             sgn = 1 if n["op"].startswith("Add") else -1
-            negs = len(tast.find(r, lambda z: z.get("k") == "Unary" and z["op"] == "Neg"))
-            if tast.contains(r, lambda z: z.get("k") == "Index" and z["e"].get("k") == "Path" and "Matrix" in (z["e"].get("ty") or "")):
-                uses.append((sgn * (-1) ** negs, n))
+            if mentions_matrix(r):
+                cs = coef_sign(r)
+                if cs is None:
+                    rep.inconc(key, key + ":extract", "substitution update `%s` is not a pure product" % tast.render(n)[:80])
+                    return
+                uses.append((sgn * cs, n))
     if store_sign is None or len(uses) != 2:
         rep.inconc(key, key + ":extract", "could not extract the multiplier store (%s) / the two substitution updates (%d)" % (store_sign is not None, len(uses)))
         return
@@ -602,3 +660,119 @@ def _branch_tag(parents, blk):
             tags.append("for-" + str(p["pat"].get("name")))
     ln = ""
     return "/".join(tags[-3:]) or "top"
+
+
+# ------------------------------------------------------------------------------------------ R-JAC-POLICY (C14)
+def r_jac_policy(rep, f):
+    """The decisions about re-evaluating the Jacobian in RADAU::solve do not contradict each other (Engler-style belief
+    consistency): every assignment of the flag that guards `IVP::jac` whose value depends on a comparison of two scalars A, B
+    is normalised to an implication `A < B  =>  flag = v`; all sites that talk about the same pair (A, B) must agree on v.
+    The orientation is anchored by the site that also skips the factorisation: where `call_decomp = false` is set, the
+    Jacobian must be kept (a fresh Jacobian that is never factorised would be wasted and the old factors used)."""
+    fn = "methods::radau::RADAU::solve"
+    b = f.bodies.get(fn)
+    key = "R-JAC-POLICY:%s" % fn
+    if b is None:
+        rep.inconc("R-JAC-POLICY", key, "RADAU::solve not found")
+        return
+    rep.fn(fn)
+    body = b["body"]
+    JAC = "ivp::IVP::jac"
+    # the flag: a bool local tested by an `if` whose then-branch calls IVP::jac
+    flags = set()
+    for i_ in tast.find(body, lambda z: z.get("k") == "If" and z["cond"].get("k") == "Path" and z["cond"].get("ty") == "bool"
+                        and tast.contains(z["then"], lambda q: q.get("k") in ("Call", "MethodCall") and q.get("def") == JAC)):
+        flags.add(i_["cond"]["id"])
+    if len(flags) != 1:
+        rep.inconc("R-JAC-POLICY", key, "expected one boolean flag guarding the IVP::jac call, found %d" % len(flags))
+        return
+    fid = next(iter(flags))
+    # the factorisation flag: the bool local guarding the lu_decomp calls
+    dflags = set()
+    for i_ in tast.find(body, lambda z: z.get("k") == "If" and z["cond"].get("k") == "Path" and z["cond"].get("ty") == "bool"
+                        and tast.contains(z["then"], lambda q: q.get("k") in ("Call", "MethodCall") and q.get("def") in (LU, LUC))):
+        dflags.add(i_["cond"]["id"])
+
+    def operand(e):
+        while e.get("k") in ("Cast", "Unary") and e.get("op") in (None, "Deref"):
+            e = e["e"]
+        if e.get("k") == "Path" and e.get("res") == "local":
+            return ("local", e["id"], e.get("name"))
+        if e.get("k") == "Path" and e.get("dk") in ("Const", "AssocConst"):
+            return ("const", e.get("def"), e.get("def").split("::")[-1])
+        if e.get("k") == "Field":
+            return ("field", e.get("fdef"), e.get("name"))
+        return None
+
+    def cmp_facts(c, truth):
+        """[(A, B, lt)] : `A < B` is known to be `lt` (True/False) when condition c has the given truth value; conjunctions only"""
+        out = []
+        if c.get("k") == "Binary" and c["op"] == "And" and truth:
+            return cmp_facts(c["l"], True) + cmp_facts(c["r"], True)
+        if c.get("k") == "Binary" and c["op"] == "Or" and not truth:
+            return cmp_facts(c["l"], False) + cmp_facts(c["r"], False)
+        if c.get("k") == "Unary" and c.get("op") == "Not":
+            return cmp_facts(c["e"], not truth)
+        if c.get("k") == "Binary" and c["op"] in ("Lt", "Le", "Gt", "Ge"):
+            A, B = operand(c["l"]), operand(c["r"])
+            if A is None or B is None or A[0] == B[0] == "const":
+                return []
+            op = c["op"]
+            # strictness is immaterial for a policy threshold: A < B and A <= B are read as "A below B"
+            below = op in ("Lt", "Le")
+            val = below == truth
+            if (A[1] or "") > (B[1] or ""):
+                A, B, val = B, A, not val
+            out.append((A, B, val))
+        return out
+
+    sites = []   # (pair, A_below_B, flag value, node)
+    for asg, parents in tast.find_with_parents(body, lambda z: z.get("k") == "Assign" and z["l"].get("k") == "Path" and z["l"].get("id") == fid):
+        r = asg["r"]
+        if r.get("k") == "Lit" and r.get("lk") == "Bool":
+            v = bool(r["v"])
+            for a in parents:
+                if a.get("k") == "If":
+                    in_then = tast.contains(a["then"], lambda z: z is asg)
+                    in_else = a.get("else") is not None and tast.contains(a["else"], lambda z: z is asg)
+                    if in_then or in_else:
+                        for A, B, below in cmp_facts(a["cond"], in_then):
+                            sites.append(((A[1], B[1]), below, v, asg, "%s %s %s" % (A[2], "<" if below else ">=", B[2])))
+        else:
+            for A, B, below in cmp_facts(r, True):
+                sites.append(((A[1], B[1]), below, True, asg, "%s %s %s" % (A[2], "<" if below else ">=", B[2])))
+                sites.append(((A[1], B[1]), not below, False, asg, "%s %s %s" % (A[2], ">=" if below else "<", B[2])))
+    # (1) keeping the factors implies keeping the Jacobian
+    n1 = 0
+    for asg, parents in tast.find_with_parents(body, lambda z: z.get("k") == "Assign" and z["l"].get("k") == "Path" and z["l"].get("id") in dflags
+                                               and z["r"].get("k") == "Lit" and z["r"].get("v") in (False, "false")):
+        blk = next((p for p in reversed(parents) if p.get("k") == "Block"), None)
+        if blk is None:
+            continue
+        n1 += 1
+        same = tast.find(blk, lambda z: z.get("k") == "Assign" and z["l"].get("k") == "Path" and z["l"].get("id") == fid)
+        if not same or not all(x["r"].get("k") == "Lit" and x["r"].get("v") in (False, "false") for x in same):
+            rep.violation("R-JAC-POLICY", key + ":keep-factors", "the factorisation is kept (`%s`) but the Jacobian flag is not cleared in the same block: a re-evaluated Jacobian would never be factorised"
+                          % tast.render(asg), asg.get("sp"))
+    # (2) belief consistency over (A, B)
+    by_pair = {}
+    for pair, below, v, node, txt in sites:
+        by_pair.setdefault((pair, below), []).append((v, node, txt))
+    n2 = 0
+    bad = False
+    for (pair, below), lst in by_pair.items():
+        vals = {v for v, _, _ in lst}
+        n2 += len(lst)
+        if len(vals) > 1:
+            bad = True
+            t_ = next(n_ for v, n_, _ in lst if v)
+            f_ = next(n_ for v, n_, _ in lst if not v)
+            rep.violation("R-JAC-POLICY", key + ":contradiction", "under `%s` one site requests a new Jacobian (`%s`, %s) and another keeps the old one (`%s`, %s): one of the two decisions is inverted"
+                          % (lst[0][2], tast.render(t_)[:60], t_.get("sp"), tast.render(f_)[:60], f_.get("sp")), t_.get("sp"))
+    if not bad:
+        pairs = {p for (p, _b) in by_pair}
+        multi = [p for p in pairs if len({id(n_) for (pp, _b), l_ in by_pair.items() if pp == p for _v, n_, _t in l_}) >= 2]
+        if n1 == 0 or not multi:
+            rep.inconc("R-JAC-POLICY", key, "expected the keep-factors site and at least two Jacobian decisions about the same pair of quantities (found %d keep-factors site(s), %d comparable pair(s))" % (n1, len(multi)))
+        elif not any(v["key"].startswith(key) for v in rep.violations):
+            rep.ok("R-JAC-POLICY", key, "%d Jacobian-flag decision(s) over %d compared pair(s) are mutually consistent; keeping the factors keeps the Jacobian (%d site)" % (n2, len(pairs), n1))
